@@ -309,7 +309,9 @@ pub fn mech_code(code: &MechCode, p: &Interpreter) -> MResult<Value> {
       function_define(&fxn_def, p)?;
       Ok(Value::Empty)
     },
-    MechCode::Comment(cmmt) => comment(&cmmt, p),
+    // A comment is not an evaluation: it must not go through update_ans_symbol below
+    // (a trailing comment used to reset `ans` to Empty).
+    MechCode::Comment(cmmt) => return comment(&cmmt, p),
     x => Err(MechError::new(
         FeatureNotEnabledError,
         None
